@@ -284,7 +284,7 @@ theorem parseSplit_output (env : Env) (hl : AsciiLower env) (sp : Split) (P : Pa
                 · intro c hc
                   exact ⟨fun hh => hok.queryNo (hh ▸ hc), hok.safe c (by simp [hc])⟩
               refine ⟨hplain, portOf_le _ _ hport, hpath, ?_⟩
-              rw [hfragE]
+              rw [hfragE, rebracket_plain (fun hm => (hplain.chars _ hm).2.2.1 rfl)]
               have hauth : (if port?.getD 1965 ≠ 1965 then host ++ [':'] ++ natToStr (port?.getD 1965) else host)
                   = authorityOf host (port?.getD 1965) := rfl
               rw [hauth]
